@@ -59,6 +59,23 @@ def run(tier: str) -> Run:
         ok = all(eq_term(t.subst({a.id: V(pname) * k}), t) for t in comps.values()) and len(comps) == 3
         r4.check(ok, f'scale({pname})', loc(fi), {'components': {k_: T.show(v) for k_, v in comps.items()}}, key=f'scale:{pname}')
 
+    # R5 dtype: Q is a float quantity for every wavelength dtype
+    r5 = run.rule('R5', 'Q components are float64 for float64/float32/int64 wavelengths; no float-to-int cast', 3)
+    for dt in ('float64', 'float32', 'int64'):
+        outs_d = run_kernel(repo, fi, specs_for(fi), dtypes={'wavelength': dt})
+        probs = []
+        for o in outs_d:
+            if o.kind == 'raise':
+                probs.append({'raises': o.exc_type, 'where': o.where})
+                continue
+            for key, v in o.value.items():
+                if v.dtype != 'float64':
+                    probs.append({'key': key, 'dtype': v.dtype})
+            for e in events(o, 'narrowing-cast', 'int-unit-conversion'):
+                probs.append({'event': e.kind, **e.detail, 'where': e.where})
+        r5.check(not probs, f'Q_elements_from_wavelength[wavelength={dt}]', loc(fi), {'problems': probs[:3]},
+                 key='Q_elements:dtype')
+
     # R2 pack
     fi, outs = single(repo, 'Q_vec_from_Q_elements')
     for o in outs:
